@@ -542,7 +542,7 @@ def validation_rules(repo: Repo, rep, P: str):
     from .. import alg
     from . import c10
     try:
-        lo, hi = c10._accept_interval(repo, rng, vf)
+        lo, hi = c10._accept_interval(repo, rng, _specialise(repo, rng, inline.normalize(repo, rng, vf, exact=True)))
     except c10._NoInterval as e:
         lo = hi = None
         rep.inconclusive(f"{P}.R4", vcon, norm(vf)[:120], f"rejection condition not derivable: {e}", f"{rel}:{vf.lineno}")
